@@ -83,6 +83,11 @@ CANDIDATES = {
                 services=(dict(ID1, name="ident1n", neg=[NEGR]), ID2), gnr=(NEGR,)),
         variant("v2", [[mp("5", "ident1n", "v")]],
                 services=(dict(ID1, name="ident1n", neg=[NEGR]), ID2))],
+    # two conditions on the same identification service: both must hold
+    "two-params-one-service": [
+        variant("v1", [[mp("7", "ident3", None, "st.a"), mp("ABCD", "ident3", None, "st.serial")]]),
+        variant("v2", [[mp("ABCD", "ident3", None, "st.serial"), mp("9", "ident3", None, "st.a")]]),
+        variant("v3", [[mp("ABCD", "ident3", None, "st.serial")]])],
     "shared-and-distinct": [variant("v1", [[mp("1", "ident1", "v"), mp("2", "ident2", "w")]]),
                             variant("v2", [[mp("1", "ident1", "v"), mp("3", "ident2", "w")]]),
                             variant("v3", [[mp("4", "ident2", "w")]])],
@@ -275,9 +280,16 @@ def run_match(sx, cfg, env):
     issued = []
 
     def ecu(req):
+        # one response per distinct request; "silent": only the first / all but the first
+        # distinct request is answered, the others get an empty response
         key = bytes(req)
         if key not in responses:
-            responses[key] = sx.bytes("resp_" + key.hex(), rlen)
+            n = rlen
+            if cfg.get("silent") == "later" and responses:
+                n = 0
+            if cfg.get("silent") == "first" and not responses:
+                n = 0
+            responses[key] = sx.bytes("resp_" + key.hex(), n)
         return responses[key]
 
     matcher = VariantMatcher(variant_candidates=layers, use_cache=cfg["cache"])
@@ -325,10 +337,17 @@ def configs(tier, seed):
                 out.append({"id": f"match/{name}/rlen{rlen}/{'cache' if cache else 'nocache'}",
                             "harness": "match", "cand": name, "rlen": rlen, "cache": cache,
                             "build": {"cand": name}})
+                if name in ("all-params", "any-pattern", "shared-and-distinct", "base-variants") \
+                        and rlen in (4, 5):
+                    for silent in ("first", "later"):
+                        out.append({"id": f"match/{name}/rlen{rlen}/{'cache' if cache else 'nocache'}"
+                                          f"/silent-{silent}",
+                                    "harness": "match", "cand": name, "rlen": rlen, "cache": cache,
+                                    "silent": silent, "build": {"cand": name}})
     return out
 
 
-BOUNDS = {"quick": "9 candidate lists (1..3 variants, 0..2 patterns, 1..2 matching parameters, "
+BOUNDS = {"quick": "17 candidate lists (1..3 variants, 0..2 patterns, 1..2 matching parameters, "
                    "SNREF and SNPATHREF into structures and fields, integer and byte-field values); "
                    "every ECU response of 3..6 bytes; cache on and off",
           "thorough": "responses of 0..8 bytes"}
